@@ -12,7 +12,8 @@
 // Monitors (model independent, monitor.go): the catalog invariant recomputed from the base tables after
 // every command, the deregistration cascades, usage counters / kind-service-names / virtual IPs /
 // gateway-services / mesh-topology against a from-scratch recomputation, through the tables and through
-// the Store's query API.
+// the Store's query API. A monitor-only family (terminating-gateway virtual IPs: both flags on — not in the Lean
+// model) runs on the real store under the same monitors without protocol lines.
 package main
 
 import (
@@ -37,11 +38,22 @@ type History struct {
 	nontrv bool
 	mon    *Monitor
 	sigs   map[string]bool // monitor signatures raised in this history
+	// Silent: a MONITOR-ONLY history — it runs on the real store under the Go monitors, no protocol line is
+	// emitted (the Lean model does not cover what it exercises: terminating-gateway virtual IPs)
+	Silent bool
 }
 
 func NewHistory(run *hx.Run) *History {
 	h := &History{Run: run, W: NewWorld(), mon: NewMonitor(), sigs: map[string]bool{}}
 	run.Line("reset", "ok")
+	h.Lines = append(h.Lines, "reset")
+	h.Last = h.W.Observe()
+	return h
+}
+
+// NewSilentHistory starts a monitor-only history.
+func NewSilentHistory(run *hx.Run) *History {
+	h := &History{Run: run, W: NewWorld(), mon: NewMonitor(), sigs: map[string]bool{}, Silent: true}
 	h.Lines = append(h.Lines, "reset")
 	h.Last = h.W.Observe()
 	return h
@@ -70,8 +82,10 @@ func (h *History) Step(op *Op) string {
 	before := h.Last
 	res := h.W.Exec(op)
 	after := h.W.Observe()
-	h.Run.Line(line, res)
-	h.Run.Line("dump", after.Dump())
+	if !h.Silent {
+		h.Run.Line(line, res)
+		h.Run.Line("dump", after.Dump())
+	}
 	h.Lines = append(h.Lines, line)
 	h.Ops = append(h.Ops, op)
 	if unclassified(res) {
@@ -242,6 +256,82 @@ func randomHistories(run *hx.Run, n, maxOps int) {
 	}
 }
 
+// tgwProfile: the monitor-only family of terminating-gateway virtual IPs — both virtual-IP flags on from the
+// start, a terminating-gateway entry linking named services (and the wildcard), instances of the gateway, of the
+// linked services (ordinary, connect-native, sidecars) coming and going, resolver / defaults entries of the linked
+// services written and deleted, later allocations.
+var tgwProfile = &Profile{Name: "tgw-vips", VipPc: 100, PeerPc: 0, CasePc: 0, KindFlips: 5, Gateways: true, TgwVips: true,
+	W: map[string]int{"reg": 42, "dereg": 26, "cfgset": 22, "cfgdel": 10}}
+
+func monitorOnlyHistories(run *hx.Run, n, maxOps int) {
+	for i := 0; i < n; i++ {
+		r := run.RNG.Fork(uint64(1000003 + i))
+		h := NewSilentHistory(run)
+		g := &Gen{R: r, P: tgwProfile, Idx: uint64(r.Intn(20)), Last: h.Last}
+		run.Tag("profile:" + tgwProfile.Name + ":monitor-only")
+		for _, op := range g.Preamble() {
+			h.Step(op)
+			g.Last = h.Last
+		}
+		for k := 3 + r.Intn(maxOps); k > 0; k-- {
+			h.Step(g.Next())
+			g.Last = h.Last
+		}
+		h.Finish()
+	}
+}
+
+// exhaustiveTgw runs EVERY word of `depth` letters over the alphabet of the terminating-gateway virtual-IP family
+// (monitor-only): a linked service gaining / losing its ordinary instance, the gateway entry and instance, a resolver
+// of the linked service written / deleted, another service asking for an address.
+func exhaustiveTgw(run *hx.Run, depth int) {
+	const tg, sr = structs.TerminatingGateway, structs.ServiceResolver
+	alphabet := []func() *Op{
+		func() *Op { return opReg("", "n1", idN1, typical("db1", "db", false)) },
+		func() *Op { return opDereg("", "n1", "db1", "") },
+		func() *Op { return opCfg(tg, "term-gw", "db") },
+		func() *Op { return opReg("", "n1", idN1, &SvcArg{ID: "term-gw", Name: "term-gw", Port: 8443, Kind: "terminating-gateway"}) },
+		func() *Op { return opCfg(sr, "db", "") },
+		func() *Op { return opCfgDel(sr, "db") },
+		func() *Op { return opReg("", "n1", idN1, typical("cache1", "api", true)) },
+		func() *Op { return opCfg(tg, "term-gw", "web") },
+	}
+	word := make([]int, depth)
+	count := 0
+	for {
+		h := NewSilentHistory(run)
+		idx := uint64(10)
+		for _, pre := range []*Op{opVips(), opTgwVips()} {
+			pre.Idx = idx
+			idx += 2
+			h.Step(pre)
+		}
+		for k, l := range word {
+			op := alphabet[l]()
+			idx += 2
+			op.Idx = idx
+			op.ViaFSM = (count+k)%2 == 0
+			h.Step(op)
+		}
+		h.Finish()
+		count++
+		i := depth - 1
+		for i >= 0 {
+			word[i]++
+			if word[i] < len(alphabet) {
+				break
+			}
+			word[i] = 0
+			i--
+		}
+		if i < 0 {
+			break
+		}
+	}
+	run.Extra[fmt.Sprintf("exhaustive_tgw_vips_depth_%d", depth)] = map[string]any{"alphabet": len(alphabet), "histories": count, "exhaustive": true, "monitor_only": true}
+	run.Tag(fmt.Sprintf("exhaustive-tgw-vips:depth-%d", depth))
+}
+
 // exhaustive runs EVERY word of `depth` letters over a small alphabet (2 nodes, one typical / connect-native
 // instance, two sidecars of one destination, a service check, a config entry, a rename by node ID), each on a
 // fresh store with virtual IPs enabled: validation of the tie on a complete small scope, not the claim itself.
@@ -301,9 +391,12 @@ func main() {
 	}
 	// state.addIPOffset asks netutil for the agent's bind address (IPv4: virtual IPs are 240.0.0.0 + offset)
 	netutil.SetAgentBindAddr(&net.IPAddr{IP: net.ParseIP("10.0.0.1")})
-	run.Rule = "every result line and every full dump (nodes, services with kind/connect/proxy/virtual-IP attributes, checks, coordinates, sessions, kind-service-names, service-virtual-ips, free-virtual-ips, usage, config entries, system metadata, local index rows) of the real state store after every command equals the Lean model's; the catalog invariant, the deregistration cascades and every derived view (usage, kind-service-names, virtual IPs, gateway-services, mesh-topology) recomputed from the registrations and config entries hold on the implementation"
+	run.Rule = "every result line and every full dump (nodes, services with kind/connect/proxy/virtual-IP attributes, checks, coordinates, sessions, kind-service-names, service-virtual-ips, free-virtual-ips, usage, config entries, system metadata, local index rows) of the real state store after every command equals the Lean model's; the catalog invariant, the deregistration cascades and every derived view (usage, kind-service-names, virtual IPs, gateway-services, mesh-topology) recomputed from the registrations and config entries hold on the implementation; monitor-only histories (terminating-gateway virtual IPs: both flags on) run under the same monitors without model comparison"
 	runCorpus(run)
 	randomHistories(run, run.Scale(600, 8000), 30)
 	exhaustive(run, run.Scale(3, 4))
+	// monitor-only family: terminating-gateway virtual IPs (not in the Lean model)
+	monitorOnlyHistories(run, run.Scale(200, 3000), 30)
+	exhaustiveTgw(run, run.Scale(4, 5))
 	run.Finish()
 }
